@@ -345,6 +345,31 @@ let s_keygen g obs =
     else "ok" in
   (model, verdict)
 
+(* the MA prefix as configured text: refused, or identifiers that start with the digits configured *)
+let s_macfg g obs =
+  let str = String.concat "" (List.map (fun b -> String.make 1 (Char.chr (int_of_n b))) (getb g "s")) in
+  let ds = String.lowercase_ascii (String.concat "" (String.split_on_char '-' str)) in
+  let is_hex c = (c >= '0' && c <= '9') || (c >= 'a' && c <= 'f') in
+  let all_hex = let ok = ref true in String.iter (fun c -> if not (is_hex c) then ok := false) ds; !ok in
+  let n = String.length ds in
+  let pad h = String.make (max 0 (16 - String.length h)) '0' ^ h in
+  let netid = getn g "netid" and id = getn g "id" in
+  let model =
+    if all_hex && n mod 2 = 0 && (n = 6 || n = 8 || n = 10) then begin
+      let size = n_of_int (match n with 6 -> 24 | 8 -> 28 | _ -> 36) in
+      let prefix64 = n_of_hex (ds ^ String.make (16 - n) '0') in
+      Printf.sprintf "ok:%d:%s" (int_of_n size) (pad (hex_of_n (eui_of size prefix64 netid id)))
+    end else "err" in
+  let verdict =
+    match String.split_on_char ':' obs with
+    | ["ok"; size; eui] ->
+      let nd = (int_of_string size) / 4 in
+      if not all_hex || n < nd then "bad:configuration-accepted-that-names-no-prefix-of-that-size"
+      else if String.sub eui 0 nd <> String.sub ds 0 nd then "bad:eui-does-not-start-with-the-configured-prefix"
+      else "ok"
+    | _ -> if obs = "err" then "ok" else "bad:configuration-check-" ^ obs in
+  (model, verdict)
+
 (* ---- forced schedules (C03, C05, C07, C09) ---- *)
 let s_sched which g obs =
   if obs = "HUNG" then ("?", "bad:sched-hung") else
@@ -417,6 +442,7 @@ let s_sched which g obs =
 let register_all register =
   List.iter (fun c -> register ("sched" ^ c) (s_sched c)) ["C03"; "C04"; "C05"; "C06"; "C07"; "C09"; "C17"];
   register "keygen" s_keygen;
+  register "macfg" s_macfg;
   register "registry" Regsuite.s_registry;
   register "codec" Regsuite.s_codec;
   register "router" s_router;
